@@ -751,8 +751,22 @@ class RedlineEngine:
             return False
 
         if op == EditOperationType.DELETION:
+            first_del_element = None
+            last_del_element = None
             for run in target_runs:
-                self.track_delete_run(run)
+                del_elem = self.track_delete_run(run)
+                if first_del_element is None:
+                    first_del_element = del_elem
+                if del_elem is not None:
+                    last_del_element = del_elem
+
+            if edit.comment and first_del_element is not None and last_del_element is not None:
+                start_p = first_del_element.getparent()
+                end_p = last_del_element.getparent()
+                if start_p == end_p:
+                    self._attach_comment(start_p, first_del_element, last_del_element, edit.comment)
+                else:
+                    self._attach_comment_spanning(start_p, first_del_element, end_p, last_del_element, edit.comment)
 
         elif op == EditOperationType.MODIFICATION:
             first_del_element = None
